@@ -8,6 +8,15 @@ tables). Families:
                    every subset of the first 8 droppable data segments it sees (exhaustive in
                    the thorough tier, a sample in the quick tier), small and default MSS,
                    client->server and server->client
+  delay            one transfer through a scripted delayer (`hop … delayer`) on the writer's outgoing
+                   route: the listed droppable segments are held for a while and then forwarded
+                   unchanged, so that the segments behind them overtake them -- reordering without
+                   loss and without any drop notification (the receiver's reorder buffer is filled
+                   and drained by first transmissions only). Every subset of the first 6 data
+                   segments x 4 delay patterns (thorough: x 2 directions x 2 MSS; quick: a sample),
+                   random tables over the first 14 beyond; also combined with a dropper on the same
+                   route (before or behind the delayer), and drained with tiny reads / wait_read +
+                   non-blocking reads / non-blocking reads from timers
   smallread        transfers drained with many tiny reads (capacity 1..7 over 1..4 buffers,
                    wait_read + read_nb), tiny to default MSS so that reads straddle segments
   reuse            a socket object closed (or re-attached without close) and reused while data
@@ -33,8 +42,10 @@ def no_pcap(cfg):
     cfg.lines = [l for l in cfg.lines if not l.startswith("pcap")]
 
 
-def fixed_cfg(rng, drop_cli=None, drop_srv=None, mtu=None, slow=False, nat=False):
-    """two nodes, one address each: n0 = server 10.0.0.1, n1 = client 10.0.1.1"""
+def fixed_cfg(rng, drop_cli=None, drop_srv=None, mtu=None, slow=False, nat=False, delay_cli=None, delay_srv=None, delay_first=False):
+    """two nodes, one address each: n0 = server 10.0.0.1, n1 = client 10.0.1.1.
+    `delay_cli` / `delay_srv`: {ordinal: ns} of a scripted delayer on that node's outgoing route, behind the
+    first queue like the dropper (in front of the dropper when `delay_first`)"""
     L = []
     L.append("hop net queue bw=%d lat=%d cap=0" % (rng.choice([0, 10000000]), rng.choice([1000, 1000000, 10000000])))
     L.append("route net * net")
@@ -49,9 +60,14 @@ def fixed_cfg(rng, drop_cli=None, drop_srv=None, mtu=None, slow=False, nat=False
             L.append("hop nat%d nat ext=99.0.0.%d" % (k, k)); out.append("nat%d" % k)
         out.append("qo%d" % k)
         d = drop_srv if k == 1 else drop_cli
+        y = delay_srv if k == 1 else delay_cli
+        if y is not None:
+            L.append("hop y%d delayer delay=%s" % (k, ",".join("%d:%d" % (o, y[o]) for o in sorted(y))))
+        if y is not None and delay_first: out.append("y%d" % k)
         if d is not None:
             L.append("hop d%d dropper drop=%s" % (k, ",".join(map(str, sorted(d)))))
             out.append("d%d" % k)
+        if y is not None and not delay_first: out.append("y%d" % k)
         L.append("route out %s %s" % (ip, " ".join(out)))
         L.append("route in %s qi%d pi%d" % (ip, k, k))
     if mtu is not None: L.append("mtu * %d" % mtu)
@@ -198,6 +214,112 @@ def drop_family(rng, tier, prefix="d"):
     return out
 
 
+# ---------------------------------------------------------------------------------- delay
+
+# how long a listed segment is held. "short": about one serialisation time (ties and near-ties with the
+# segments right behind); "long": several round trips (everything the window lets out meanwhile overtakes);
+# "desc": the earlier the segment the longer it is held (the held segments come out in REVERSE order, each one
+# arriving while the reorder buffer already holds later ones); "rand": independent draws
+DELAY_PATTERNS = ["short", "long", "desc", "rand"]
+DELAYS = [100, 150000, 2000000, 11000000, 40000000, 150000000, 1000000000]
+
+
+def delay_table(rng, ords, pattern):
+    ords = sorted(ords)
+    if pattern == "short": return {o: rng.choice([100, 150000, 2000000]) for o in ords}
+    if pattern == "long":
+        d = rng.choice([40000000, 150000000, 1000000000])
+        return {o: d for o in ords}
+    if pattern == "desc":
+        step = rng.choice([3000000, 25000000, 100000000])
+        return {o: step * (len(ords) - i) for i, o in enumerate(ords)}
+    return {o: rng.choice(DELAYS) for o in ords}
+
+
+def delay_scenario(rng, sid, subset, pattern="rand", reverse=False, mss=None, drops=None, rdr=None, deep=False):
+    """`subset`: ordinals (among the droppable data segments the delayer sees) to hold; on the client's
+    route ordinal 0 is the SYN, which passes at once. `drops`: ordinals of a dropper on the same route
+    (its own count; retransmissions pass the delayer again and count there too). `rdr`: how the receiver
+    drains -- None (as in the drop family), "small" (capacity 1..7), "nb" (mostly wait_read + read_nb, and
+    non-blocking reads from timers). `deep`: a long transfer of single-segment writes (the window grows by about
+    one segment per round trip, so that a run of held segments further down the stream is in flight together)"""
+    mss = mss or rng.choice([100, 100, 1475] if rdr != "small" else [28, 100])
+    sh = 0 if reverse else 1
+    tbl = delay_table(rng, [x + sh for x in subset], pattern)
+    kw = dict(mtu=mss, slow=rng.random() < 0.5, nat=rng.random() < 0.3, delay_first=rng.random() < 0.5)
+    dset = None if drops is None else set(x + sh for x in drops)
+    if reverse: cfg = fixed_cfg(rng, drop_srv=dset, delay_srv=tbl, **kw)
+    else: cfg = fixed_cfg(rng, drop_cli=dset, delay_cli=tbl, **kw)
+    P = Prog(rng)
+    c = connect(rng, P, cfg, 8000, "n0", "n1", sip="10.0.0.1")
+    w, wctx, r, rctx = (c["ss"], c["hacc"], c["cs"], c["hcon"]) if reverse else (c["cs"], c["hcon"], c["ss"], c["hacc"])
+    nseg = rng.choice([8, 9, 10, 12, 16]) if rdr != "small" else rng.choice([7, 8, 10])
+    if deep: nseg = rng.choice([30, 40, 50])
+    total = nseg * mss - rng.choice([0, 0, 1, mss // 2])
+    sizes = [mss, 2 * mss, 3 * mss, 3 * mss + 1, total] if rng.random() < 0.7 else [mss // 2 + 1, mss, 5 * mss]
+    if deep: sizes = [mss, mss, mss - 1]
+    wend = writer(rng, P, w, wctx, 10, total, sizes, bufs=(1, 1, 1, 2))
+    if rdr == "small":
+        caps = rng.choice([[1, 2, 3], [3, 5, 7], [1, 2, 3, 4, 5, 6, 7], [7]])
+        nreads = min(total * 2 // (sum(caps) // len(caps)) + 8, 400)
+        rend = reader(rng, P, r, rctx, nreads, caps, bufs=(1, 2, 3, 4), nb_p=rng.choice([0.0, 0.2, 0.6]), nb_caps=caps)
+        reader(rng, P, r, rend, 3, [65536], nb_p=0.0, at_p=0.0)
+    elif rdr == "nb":
+        caps = rng.choice([[65536], [mss, 4096], [7, mss - 1, 2 * mss + 1]])
+        reader(rng, P, r, rctx, min(total // min(caps) + 8, 80), caps, nb_p=0.7, nb_caps=[mss // 2 + 1, mss, 65536], at_p=0.6)
+    else:
+        caps = rng.choice([[65536], [mss, 4096], [7, mss - 1, 2 * mss + 1], [max(1, mss // 3)]])
+        nreads = (total // min(caps)) + 6 if min(caps) >= mss // 3 else 60
+        reader(rng, P, r, rctx, min(nreads, 80), caps, nb_p=0.15, nb_caps=[mss, 65536])
+    if rng.random() < 0.8: P.do(wend, "%s.close" % w)
+    return finish(sid, cfg, P)
+
+
+def delay_family(rng, tier, prefix="y", scale=1.0):
+    """`scale` < 1: a proportionally smaller sample (other checks that run a share of the family)"""
+    out = []
+    subsets = [s for k in range(1, 7) for s in itertools.combinations(range(6), k)]      # the 63 non-empty ones
+    def sid(): return "%s%d" % (prefix, len(out))
+    def extras(n):
+        for j in range(n):
+            x = j % 5
+            if x == 4:
+                # a run of 3..6 consecutive segments 8..30 segments into the stream, all in flight together
+                a = rng.randrange(8, 30); s = list(range(a, a + rng.randrange(3, 7)))
+                if rng.random() < 0.3: s = sorted(set(s + rng.sample(range(a), 2)))
+                out.append(delay_scenario(rng, sid(), s, rng.choice(["desc", "desc", "rand", "long"]), reverse=rng.random() < 0.4, mss=rng.choice([28, 100, 100, 500]), deep=True))
+            elif x == 0:
+                # drop + delay on the same route: the retransmissions pass the delayer too
+                s = sorted(rng.sample(range(10), rng.randrange(1, 5))); d = sorted(rng.sample(range(10), rng.randrange(1, 4)))
+                out.append(delay_scenario(rng, sid(), s, rng.choice(DELAY_PATTERNS), reverse=rng.random() < 0.4, drops=d))
+            elif x == 1:
+                out.append(delay_scenario(rng, sid(), rng.choice(subsets), rng.choice(DELAY_PATTERNS), reverse=rng.random() < 0.4, rdr="small"))
+            elif x == 2:
+                out.append(delay_scenario(rng, sid(), rng.choice(subsets), rng.choice(DELAY_PATTERNS), reverse=rng.random() < 0.4, rdr="nb"))
+            else:
+                # beyond the exhaustive part: random tables over the first 14
+                s = sorted(rng.sample(range(14), rng.randrange(1, 8)))
+                out.append(delay_scenario(rng, sid(), s, rng.choice(DELAY_PATTERNS), reverse=rng.random() < 0.4))
+    if tier == "quick":
+        combos = [(s, p) for s in subsets for p in DELAY_PATTERNS]
+        for i, (s, p) in enumerate(rng.sample(combos, max(4, int(112 * scale)))):
+            out.append(delay_scenario(rng, sid(), s, p, reverse=(i % 3 == 2)))
+        extras(max(5, int(100 * scale)))
+    else:
+        for rev in (False, True):
+            for mss in (100, 1475):
+                for s in subsets:
+                    for p in DELAY_PATTERNS:
+                        out.append(delay_scenario(rng, sid(), s, p, reverse=rev, mss=mss))
+        extras(int(2000 * scale))
+    return out
+
+
+def generate_delay(seed, tier, scale=1.0, prefix="y"):
+    """own random stream: the other families of `generate` are what they were"""
+    return delay_family(random.Random(seed * 15485863 + 41), tier, prefix, scale)
+
+
 # ---------------------------------------------------------------------------------- smallread
 
 def smallread_scenario(rng, sid):
@@ -300,7 +422,7 @@ def generate(seed, tier, family=None):
     rng = random.Random(seed * 32452843 + 5)
     q = 0 if tier == "quick" else 1
     out = []
-    fams = [family] if family else ["tcp", "tcp_heavy", "drop", "smallread", "reuse", "both"]
+    fams = ([family] if family != "delay" else []) if family else ["tcp", "tcp_heavy", "drop", "smallread", "reuse", "both"]
     for fam in fams:
         if fam == "drop":
             out += drop_family(rng, tier)
@@ -314,6 +436,9 @@ def generate(seed, tier, family=None):
             else: out.append(both_scenario(rng, sid))
     if not family:
         out += generate_moved(seed + 17, tier, 40 if tier == "quick" else 1200)
+        out += generate_delay(seed, tier)
+    elif family == "delay":
+        out = generate_delay(seed, tier)
     return out
 
 
